@@ -272,7 +272,7 @@ impl Session {
             let mut g = self.sched.lock();
             match g.t {
                 TState::AtPoll => {
-                    g.pending = 0; // the drain loop that follows empties the channel
+                    // the drain loop that follows empties the channel; the `drained` hook zeroes `pending`
                     self.sched.next_event_node.store(next_event, Ordering::SeqCst);
                 }
                 TState::AtIdleExit => {
@@ -1392,6 +1392,25 @@ pub fn gen_plan(focus: &str, seed: u64, thorough: bool, pool: &[Pos]) -> EngineP
 pub fn gen_plan_exact(seed: u64, thorough: bool, pool: &[Pos], mates: &[(Pos, u32)]) -> EnginePlan {
     let mut rng = Rng::new(seed);
     let knobs = Knobs { poll_interval: *rng.pick(POLL_INTERVALS), tt_capacity: *rng.pick(TT_CAPS) };
+    if rng.chance(1, 5) {
+        // FEN walk: a shuffling game sent position by position as bare FENs (true clocks and move
+        // numbers, no move list): each search starts from a position WITHOUT repetition history,
+        // whatever the same engine instance was told or searched before
+        let game = random_game(&mut rng, pool, 14, true);
+        let from = game.line.len().saturating_sub(if thorough { 10 } else { 6 });
+        let mut cycles = Vec::new();
+        for (k, p) in game.line[from..].iter().enumerate() {
+            if !p.has_legal_move() || p.half > 40 {
+                continue;
+            }
+            let mut g = GoSpec::depth(1 + rng.below(if piece_count(p) > 16 { 2 } else { 3 }));
+            g.layout = rng.next_u64();
+            cycles.push(Cycle { newgame: k == 0 || rng.chance(1, 6), pos: PosSpec::Set { fen: Some(p.to_fen()), moves: vec![] }, pre_lines: vec![], go: g, ns_per_node: 1000, gap_ns: 1_000_000, jumps: vec![], stop_before_dequeue: false, events: vec![], post_lines: vec![] });
+        }
+        if cycles.len() >= 2 {
+            return EnginePlan { focus: "C08".into(), knobs, cycles, enumerate_interrupts: false, twin: false };
+        }
+    }
     let n = 2 + rng.usize_below(if thorough { 8 } else { 4 });
     let mut cycles = Vec::new();
     for ci in 0..n {
